@@ -139,7 +139,9 @@ theorem geval_pure (GP : GProg) (rs : List String) (gargs : List GVal) (genv : G
     cases e with
     | lit l => simp [gpureEvalN] at h; subst h; rfl
     | var x =>
-      have hx : rs.contains x = false := by simpa [isGPureFor] using hp
+      have hx : rs.contains x = false := by
+        simp only [isGPureFor, Bool.and_eq_true, Bool.not_eq_true'] at hp
+        exact hp.1
       apply g_var
       rw [lookup_call_env_other hx]
       simpa [gpureEvalN] using h
@@ -162,6 +164,7 @@ theorem geval_pure (GP : GProg) (rs : List String) (gargs : List GVal) (genv : G
             simpa using this
         · cases h
       · cases h
+    | funcLit ps b => simp [isGPureFor] at hp
     | _ => simp [gpureEvalN] at h
 
 theorem geval_pures (GP : GProg) (rs : List String) (gargs : List GVal) (genv : GEnv) (k : Nat) :
